@@ -29,9 +29,12 @@ def harness(tier, seed):
     viol, samples = [], []
     evals, distinct = 0, set()
     reps = 150 if tier == "quick" else 2500
-    for _ in range(reps):
-        n = rng.randint(1, 6)
-        mx = rng.choice([1, 9, 300, 70000, 10 ** 6])
+    big = [128, 129, 257] if tier == "quick" else [127, 128, 129, 130, 255, 256, 257]
+    for rep in range(reps + len(big)):
+        # the last instances: sizes at the boundaries of the integer types a permutation can be stored in (sampled
+        # permutations instead of all n!)
+        n = rng.randint(1, 6) if rep < reps else big[rep - reps]
+        mx = rng.choice([1, 9, 300, 70000, 10 ** 6] if rep < reps else [1, 9, 300])
         f = [[rng.randint(0, mx) for _ in range(n)] for _ in range(n)]
         d = [[rng.randint(0, mx) for _ in range(n)] for _ in range(n)]
         if sum(map(sum, f)) == 0:
@@ -60,8 +63,18 @@ def harness(tier, seed):
         obj = QAPObjective(inst)
         lo, hi = obj.lower_bound(), obj.upper_bound()
         vals = {}
-        for p in itertools.permutations(range(n)):
-            x = np.array(p, dtype=rng.choice([np.int64, np.uint8, np.int16]))
+        def perms():
+            if n <= 6:
+                yield from itertools.permutations(range(n))
+            else:
+                for _k in range(6):
+                    q = list(range(n))
+                    rng.shuffle(q)
+                    yield tuple(q)
+        if n > 6:
+            info = {"n": n, "lines": f"{len(lines)} lines, instance {rep} of seed {seed}"}
+        for p in perms():
+            x = np.array(p, dtype=rng.choice([np.int64, np.uint8, np.int16] if n <= 256 else [np.int64, np.uint16, np.int16]))
             v = int(obj.evaluate(x))
             evals += 1
             want = sum(f[i][j] * d[p[i]][p[j]] for i in range(n) for j in range(n))
@@ -142,7 +155,7 @@ def harness(tier, seed):
     seen = set()
     viol = [v for v in viol if not (v[0] in seen or seen.add(v[0]))]
     return {"name": "qap", "evaluations": evals, "distinct_nontrivial": len(distinct),
-            "rule": "random matrices n <= 6 (values up to 10^6) serialised as QAPLIB text with classic, single-line and random "
+            "rule": "random matrices n <= 6 (values up to 10^6) and n in 127..257 (storage-type boundaries, sampled permutations) serialised as QAPLIB text with classic, single-line and random "
                     "wrapping (blank lines, lines straddling the flows/distances boundary); parsed instance equals the "
                     "matrices; all n! permutations: value == sum f*d and within [lower, upper]; narrow input dtypes; degenerate pairs "
                     "(one matrix all zero, valid user bounds below a non-contributing entry); distinct = distinct texts",
